@@ -210,9 +210,9 @@ def run(ctx: Ctx):
         ctx.check(dv.split()[-1:] == [dtname], "R05.d", f.key("d-formal"), f"formal for 'd' is '{dv}'", f"{qn}: the formal for 'd' is {dv!r} but the body uses the symbol {dtname!r}", f.where())
 
     # ---- R05.e / R05.f slots and argument order ----------------------------------------------------
-    ctx.rule("R05.e", "the step for state X is stored at state_index(X) (STATE slot family)", floor=11)
+    ctx.rule("R05.e", "the step for state X is stored at state_index(X) (STATE slot family)", floor=6)
     from .c04 import argument_orders, slot_families
 
-    slot_families(ctx, "R05.e", only_family="STATE")
+    slot_families(ctx, "R05.e", only_family="STATE", floor=False, producers=lambda p: p.func.qualname in ("CodeGenerator.initial_state_values", "CodeGenerator._state_assignments", euler_name or "explicit_euler"))
     ctx.rule("R05.f", "every argument order names states, t, dt, parameters by their own letters", floor=10)
     argument_orders(ctx, "R05.f")
